@@ -69,7 +69,7 @@ theorem twoStepFresnel_linear (N : ℕ) (w : ℕ → ℂ) (U V : ℕ → ℕ →
   have hN : 0 < N := by omega
   simp only [twoStepFresnel_eq N w _ wvl d1 d2 z ha hb]
   split_ifs
-  · exact twoStepFresnel_pinned_linear N w U V α β wvl d1 d2 z (Nat.mod_lt _ hN) (Nat.mod_lt _ hN)
+  · exact twoStepFresnel_pinned_linear N w U V α β wvl d1 d2 z (reflIdx_lt hN a) (reflIdx_lt hN b)
   · exact twoStepFresnel_pinned_linear N w U V α β wvl d1 d2 z ha hb
 
 /-! ### conservation of power -/
@@ -180,12 +180,12 @@ theorem twoStepFresnel_power (hζ : IsPrimitiveRoot ζ N) (hN : 0 < N) (U : ℕ 
   congr 1
   by_cases h : twoStepDz1 d1 d2 z * (z - twoStepDz1 d1 d2 z) < 0
   · have e : ∀ a ∈ range N, ∀ b ∈ range N, twoStepFresnel N (fun m => ζ ^ m) U wvl d1 d2 z a b
-        = twoStepFresnel_pinned N (fun m => ζ ^ m) U wvl d1 d2 z ((N - a) % N) ((N - b) % N) := by
+        = twoStepFresnel_pinned N (fun m => ζ ^ m) U wvl d1 d2 z (reflIdx N a) (reflIdx N b) := by
       intro a ha b hb
       rw [twoStepFresnel_eq N _ U wvl d1 d2 z (mem_range.mp ha) (mem_range.mp hb), if_pos h]
     rw [sum_congr rfl (fun a ha => sum_congr rfl (fun b hb => by rw [e a ha b hb]))]
     rw [sum_reflect N (fun a' => ∑ b ∈ range N,
-      Complex.normSq (twoStepFresnel_pinned N (fun m => ζ ^ m) U wvl d1 d2 z a' ((N - b) % N)))]
+      Complex.normSq (twoStepFresnel_pinned N (fun m => ζ ^ m) U wvl d1 d2 z a' (reflIdx N b)))]
     apply sum_congr rfl; intro a _
     exact sum_reflect N (fun b' => Complex.normSq (twoStepFresnel_pinned N (fun m => ζ ^ m) U wvl d1 d2 z a b'))
   · apply sum_congr rfl; intro a ha; apply sum_congr rfl; intro b hb
